@@ -35,20 +35,22 @@ def parseAs (m : List (String × String)) : Option (Uid × String) :=
 def cacheDigest (w : World) : List String :=
   (w.live.mergeSort (fun a b => a.name ≤ b.name)).map (fun t =>
     let us := (t.perUser.mergeSort (fun a b => a.1 ≤ b.1)).map (fun (u, p) =>
-      s!"{if u = "" then "-" else u}:{showMode p.want}/{showMode p.given}:r{p.readId}:v{p.recvId}:d{p.delId}:o{p.online}:p={showTok p.priv}{if p.deleted then ":deleted" else ""}")
-    let ss := (t.sessions.map (fun (s, u) => s!"{s}:{if u = "" then "-" else u}")).mergeSort (· ≤ ·)
+      s!"{if u = "" then "-" else u}:{showMode p.want}/{showMode p.given}:r{p.readId}:v{p.recvId}:d{p.delId}:o{p.online}:p={showTok p.priv}{if p.deleted then ":deleted" else ""}{if p.isChan then ":chan" else ""}")
+    let ss := (t.sessions.map (fun (s, u) => s!"{s}:{if u = "" then "-" else u}{if t.chanSess.contains s then ":chan" else ""}")).mergeSort (· ≤ ·)
     let st := (if t.inactive then " inactive" else "") ++ (if t.readOnly then " readonly" else "")
     s!"cache {t.name} last={t.lastId} del={t.delId} owner={if t.owner = "" then "-" else t.owner} acs={showMode t.auth}/{showMode t.anon} pub={showTok t.pub} tr={showTok t.tr} tags=[{",".intercalate t.tags}]{st} users[{" ".intercalate us}] sess[{" ".intercalate ss}]")
 
 def storeDigest (w : World) : List String :=
   (w.store.mergeSort (fun a b => a.name ≤ b.name)).map (fun r =>
-    let subs := (r.subs.map (fun s =>
-      s!"{s.user}:{showMode s.want}/{showMode s.given}:r{s.readId}:v{s.recvId}:d{s.delId}:p={showTok s.priv}{if s.deleted then ":deleted" else ""}")).mergeSort (· ≤ ·)
+    let showSub (s : SubRow) : String :=
+      s!"{s.user}:{showMode s.want}/{showMode s.given}:r{s.readId}:v{s.recvId}:d{s.delId}:p={showTok s.priv}{if s.deleted then ":deleted" else ""}"
+    let subs := (r.subs.map showSub).mergeSort (· ≤ ·)
+    let csubs := if r.chan then s!" csubs[{" ".intercalate ((r.csubs.map showSub).mergeSort (· ≤ ·))}]" else ""
     let msgs := r.msgs.map (fun m =>
       s!"{m.seq}:{m.sender}:{showHead m.head}:{showTok m.content}{if m.delId ≠ 0 then s!":x{m.delId}" else ""}")
     let dl := r.dellog.flatMap (fun d => d.ranges.map (fun rg =>
       s!"{d.delId}:{if d.forUser = "" then "-" else d.forUser}:{rg.low}:{if rg.hi = 0 then rg.low + 1 else rg.hi}"))
-    s!"store {r.name} seq={r.seq} del={r.del} owner={if r.owner = "" then "-" else r.owner} acs={showMode r.auth}/{showMode r.anon} pub={showTok r.pub} tr={showTok r.tr} tags=[{",".intercalate r.tags}]{if r.state ≠ 0 then s!" state={r.state}" else ""} subs[{" ".intercalate subs}] msgs[{" ".intercalate msgs}] dellog[{" ".intercalate dl}]")
+    s!"store {r.name} seq={r.seq} del={r.del} owner={if r.owner = "" then "-" else r.owner} acs={showMode r.auth}/{showMode r.anon} pub={showTok r.pub} tr={showTok r.tr} tags=[{",".intercalate r.tags}]{if r.state ≠ 0 then s!" state={r.state}" else ""} subs[{" ".intercalate subs}]{csubs} msgs[{" ".intercalate msgs}] dellog[{" ".intercalate dl}]")
 
 def sessDigest (w : World) : List String :=
   w.sess.map (fun s => s!"{s.sid}\{{",".intercalate (s.subs.mergeSort (· ≤ ·))}}")
